@@ -1,5 +1,6 @@
 import re
 from copy import deepcopy
+from fractions import Fraction
 
 from .base import (
     BaseReader, BaseWriter, CaptionSet, CaptionList, Caption, CaptionNode,
@@ -67,7 +68,9 @@ class MicroDVDReader(BaseReader):
         return caption_set
 
     def _framestomicro(self, framenum, fps=25.0):
-        return int(framenum * (10 ** 6) / fps)
+        # exact arithmetic: a declared rate such as 23.976 is a decimal number
+        # that a float only approximates (off by one microsecond on long files)
+        return int(framenum * (10 ** 6) / Fraction(str(fps)))
 
 
 class MicroDVDWriter(BaseWriter):
